@@ -842,7 +842,8 @@ class StoryMove(MosFile):
             raise MosMergeError(
                 f"{self.__class__.__name__} error in {self.message_id} - no stories given"
             )
-        if self.target_story is None:
+        if self.target_story is None or self.target_story.id is None:
+            # no (or a blank) second storyID: move to the bottom
             target_story_index = len(ro.base_tag)
         else:
             target_story, target_story_index = find_child(parent=ro.base_tag, child_tag='story', id=self.target_story.id)
